@@ -70,6 +70,12 @@ CORPUS = {
         "cfg | T0: anew 0; aclone 0 1; spawn 1; aclone 0 2; adrop 2; adrop 0; join 1 | T1: acount 1; adrop 1",
         "cfg | T0: anew 0; aclone 0 1; spawn 1; aclone 0 2; join 1; adrop 2 | T1: acount 1; adrop 1; acount 0",
         "cfg | T0: anew 0; aclone 0 1; aclone 0 2; spawn 1; spawn 2; adrop 0; join 1; join 2 | T1: acount 1; adrop 1 | T2: aclone 2 3; adrop 3; adrop 2",
+        # a leak that happens in one order only: a Track value is leaked when strong_count has already seen the other
+        # thread's drop (after an earlier, ordered drop of a third handle); inspection by the main thread / a third thread
+        "cfg | T0: anew 0; aclone 0 1; aclone 0 2; adrop 2; spawn 1; acount 0; ifeq 1 v:1 1; tnew 0; join 1; adrop 0 | T1: adrop 1",
+        "cfg | T0: anew 0; aclone 0 1; aclone 0 2; adrop 2; spawn 1; spawn 2; join 1; join 2; adrop 0 | T1: acount 0; ifeq 1 v:1 1; tnew 0 | T2: adrop 1",
+        "cfg | T0: anew 0; aclone 0 1; aclone 0 2; adrop 2; spawn 1; acount 0; ifeq 1 v:2 1; alloc 0; join 1; adrop 0 | T1: adrop 1",
+        "cfg | T0: anew 0; aclone 0 1; spawn 1; acount 0; ifeq 1 v:1 1; tnew 0; join 1; adrop 0 | T1: adrop 1",
     ],
     "C11": [
         # an inspection racing with a drop after an earlier, ordered drop of another handle
@@ -85,6 +91,12 @@ CORPUS = {
         "cfg x=1 n=1 | T0: spawn 1; nnotify 0; fadd 0 1 rlx; nwait 0; fadd 0 1 rlx; fadd 0 1 rlx; join 1 | T1: fadd 0 1 rlx; fadd 0 1 rlx; fadd 0 1 rlx",
     ],
     "C16": [
+        # skip_branch reached in one iteration only: its effect must end with that iteration (the later iterations are
+        # explored as if it had never been called)
+        "cfg x=2 | T0: spawn 1; ld 0 rlx; ifeq 1 v:0 1; skip; ld 1 rlx; join 1 | T1: st 0 1 rlx; st 1 1 rlx",
+        "cfg x=2 | T0: spawn 1; ld 0 rlx; ifeq 1 v:1 1; skip; ld 1 rlx; ld 0 rlx; join 1 | T1: st 0 1 rlx; st 1 1 rlx",
+        "cfg x=1 m=2 | T0: spawn 1; lock 0; unlock 0; ld 0 rlx; ifeq 1 v:0 1; skip; lock 1; unlock 1; join 1 | T1: lock 0; unlock 0; st 0 1 rlx; lock 1; unlock 1",
+        "cfg explicit=1 x=2 | T0: explore; spawn 1; ld 0 rlx; ifeq 1 v:0 1; skip; ld 1 rlx; join 1 | T1: st 0 1 rlx; st 1 1 rlx",
         # SeqCst fences: the global fence clock must not survive an iteration
         "cfg x=2 c=1 | T0: spawn 1; fence sc; ld 0 rlx; ifeq 1 v:1 1; crd 0; join 1; fence sc | T1: cwr 0 1; st 0 1 rlx",
         "cfg x=2 | T0: spawn 1; st 0 1 rlx; fence sc; ld 1 rlx; join 1 | T1: st 1 1 rlx; fence sc; ld 0 rlx",
